@@ -92,6 +92,19 @@ def gen_docs(c, delim):
             else:
                 docs.append(b"".join(rng.choice(alphabet) for _ in range(rng.randrange(0, 6))))
         cases.append(docs)
+    # documents larger than internal buffers / block sizes (lengths around powers of two and multiples of 3)
+    sizes = [4094, 4095, 4096, 4097, 4098, 8191, 8193, 12289] + ([65537, 1 << 20] if c.tier == "thorough" else [40000])
+    for n in sizes:
+        body = bytes(rng.choice(b"abcdefgh \xc3\xa9") for _ in range(n))
+        if delim == 10:
+            # newline-terminated lines of <= 100 bytes, total length exactly n
+            out = bytearray()
+            while len(out) < n:
+                k = min(rng.randrange(1, 100), n - len(out) - 1)
+                out += body[len(out):len(out) + k].replace(b"\n", b"x") + b"\n"
+            cases.append([bytes(out[:n - 1]) + b"\n", b"tail\n"])
+        else:
+            cases.append([body, b"tail"])
     # targeted: CR at end of line, a line that is only CR, CR before separator, empty docs, many docs
     if delim == 10:
         cases += [[b"a\r\nb\n"], [b"x\n\r\ny\n"], [b"\r\n"], [b"", b"a\n", b""], [b"a\n"] * 7, [b""], []]
@@ -121,10 +134,12 @@ def docenc_tool(c, drv):
                     {"op": "docenc-roundtrip", "delim": delim, "b64_input_hex": hexs(b64file), "output_hex": hexs(out2), "status": [st1, st2],
                      "how": "printf <b64 input> | docenc -d -q %s| docenc %s" % (" ".join(flag), " ".join(flag))})
             # (2) correspondence with the model, decode and encode separately
-            model_lines.append("TD %d - %s" % (delim, hexs(b64file)))
-            runs.append(([exe, "-d", "-q"] + flag, b64file))
-            model_lines.append("TE %d - %s" % (delim, hexs(out1)))
-            runs.append(([exe] + flag, out1))
+            small = len(b64file) <= 9000   # the extracted model's list `rev` is quadratic per record
+            if small:
+                model_lines.append("TD %d - %s" % (delim, hexs(b64file)))
+                runs.append(([exe, "-d", "-q"] + flag, b64file))
+                model_lines.append("TE %d - %s" % (delim, hexs(out1)))
+                runs.append(([exe] + flag, out1))
             # (3) index selection
             n = len(docs)
             for _ in range(2):
@@ -151,10 +166,24 @@ def docenc_tool(c, drv):
                         flat.append(int(a))
                 st, out, err = run_tool([exe, "-d", "-q"] + flag + args, b64file, timeout=20)
                 c.count(("docenc-idx", delim, tuple(args), b64file), nontrivial=n > 0, bucket="docenc-index/delim=%d" % delim)
-                model_lines.append("TD %d %s %s" % (delim, ",".join(map(str, flat)), hexs(b64file)))
-                runs.append(([exe, "-d", "-q"] + flag + args, b64file))
+                if small:
+                    model_lines.append("TD %d %s %s" % (delim, ",".join(map(str, flat)), hexs(b64file)))
+                    runs.append(([exe, "-d", "-q"] + flag + args, b64file))
                 if 0 in want:
                     continue    # index 0 is rejected with a usage error (model says USAGE)
+                # encode side: docenc -d | docenc IDX keeps exactly the listed base64 lines
+                if st1 == 0:
+                    ste, oute, erre = run_tool([exe] + flag + args, out1, timeout=20)
+                    if small:
+                        model_lines.append("TE %d %s %s" % (delim, ",".join(map(str, flat)), hexs(out1)))
+                        runs.append(([exe] + flag + args, out1))
+                    blines = b64file.split(b"\n")[:-1]
+                    expect_e = b"".join(blines[i - 1] + b"\n" for i in sorted(want) if 1 <= i <= n)
+                    c.count(("docenc-idx-enc", delim, tuple(args), b64file), nontrivial=n > 0, bucket="docenc-index-encode/delim=%d" % delim)
+                    if 0 not in want and (ste != 0 or oute != expect_e):
+                        c.violation("docenc-index-encode: docenc %s on %d documents printed %r, expected base64 of documents %s = %r" % (
+                            " ".join(args), n, oute[:200], sorted(want), expect_e[:200]),
+                            {"op": "docenc-index-encode", "delim": delim, "args": args, "input_hex": hexs(out1), "output_hex": hexs(oute), "expected_hex": hexs(expect_e), "status": ste})
                 expect = b"".join(docs[i - 1] + bytes([delim]) for i in sorted(want) if 1 <= i <= n)
                 if st != 0 or out != expect:
                     c.violation("docenc-index: docenc -d %s selected %r, expected documents %s = %r" % (" ".join(args), out[:200], sorted(want), expect[:200]),
